@@ -127,6 +127,9 @@ def build_env(entries, root):
     dct = {}
     for t, status, outdir, p in entries:
         sub = {'status': TaskStatus(status), 'result': payload_pool()[p], 'p': p}
+        if (t + p) % 3:      # the clocks the scheduler records (times of an earlier run: older than any file written now)
+            sub['start_clock'] = 1.6e9 + 10 * t
+            sub['end_clock'] = 1.6e9 + 10 * t + 1 + p
         if outdir is not None:
             sub['output_dir'] = os.path.join(root, f't{outdir}')
         dct[f't{t}'] = sub
